@@ -34,6 +34,8 @@ def build_catalogue(seed=0):
                 cat.append({"fn": "compress", "n": n, "name": name, "ops": circ, "meta": {"note": "user circuit"} if j == 1 else None})
             if j == 0:
                 cat.append({"fn": "classify", "n": n, "strings": strs})
+                # the GF(2) helpers applied to the arrays a caller's objects own (cut ranks, kernels, validity)
+                cat.append({"fn": "f2_on_stabilizer", "n": n, "strings": strs, "format": "matrices+phases"})
         # graph input (aliasing of the graph's adjacency matrix) and measurement circuits
         gid = rng.randrange(1 << (n * (n - 1) // 2))
         cat.append({"fn": "prep_graph", "n": n, "name": name, "gid": gid})
@@ -72,7 +74,7 @@ def make_inputs(spec):
     L = libif.lib()
     fn = spec["fn"]
     inp = {}
-    if fn in ("prep", "readout", "classify", "stabmeas"):
+    if fn in ("prep", "readout", "classify", "stabmeas", "f2_on_stabilizer"):
         n = spec["n"]
         gens = [pauli.parse(s)[:3] for s in spec["strings"]]
         inp["stab"] = sweep.make_stabilizer(n, gens, spec.get("format", "strings+sign"))
@@ -128,6 +130,12 @@ def execute(spec, inp=None):
         return L.sc.compress_preparation_circuit(inp["circuit"], spec["name"])
     if fn == "classify":
         return L.lc.determine_lc_class(inp["stab"])
+    if fn == "f2_on_stabilizer":
+        st = inp["stab"]
+        n = st.num_qubits
+        half = max(1, n // 2)
+        return [int(L.f2.rank(st.S)), int(L.f2.rank(st.R)), int(L.f2.rank(st.S[:half, :])), np.asarray(L.f2.null_space(st.R)).tolist(),
+                np.asarray(L.f2.rref(st.S)[0]).tolist(), bool(st.validate()), [int(st.is_qubit_entangled(q)) for q in range(n)]]
     if fn == "class_graph":
         cls = {2: L.lc.LCClass2, 3: L.lc.LCClass3, 4: L.lc.LCClass4, 5: L.lc.LCClass5, 6: L.lc.LCClass6}[spec["n"]]
         c = cls(spec["id"])
